@@ -1,5 +1,6 @@
 import ZbossModel.Crc
 import ZbossModel.Frame
+import ZbossModel.Frag
 /-! Dispatch of line-protocol operations to the executable model. -/
 namespace Zboss.Ops
 open Zboss Zboss.Crc
@@ -63,6 +64,12 @@ def handleFrame : List String → Option String
     match Ref.decode d with
     | some (f, rest) => pure s!"ok len={f.length} flags={f.flags} body={toHex f.body} rest={toHex rest}"
     | none => pure "reject"
+  | ["frag", hdr, d] => do
+    -- fragments of to_frame()'s frame: per fragment `size:flags:wire-bytes`
+    let hdr ← parseHdr hdr; let d ← parseHex d
+    let p : HLPacket := ⟨hdr, d⟩
+    let frs := Frag.fragments (Frag.whole p) p
+    pure (" ".intercalate (frs.map fun f => s!"{LL.size f.ll}:{LL.flags f.ll}:{toHex f.serialize}"))
   | ["ack", seq, r] => do
     let seq ← seq.toNat?
     pure (toHex (Frame.ack seq (r == "1")).serialize)
